@@ -10,6 +10,7 @@ import (
 
 type tableFeat struct {
 	Editable   bool
+	EditableAt string // div (wrapper around the table), body, html
 	Role       string // "", presentation, grid, treegrid, main
 	DescRole   string // "", row, gridcell, search
 	Datatable0 bool
@@ -29,7 +30,7 @@ var (
 	tfDesc     = []string{"", "row", "gridcell", "search"}
 	tfRows     = []int{3, 1, 2, 19, 20}
 	tfCols     = []int{4, 1, 2, 5}
-	tfHeaders  = []string{"", "caption", "thead", "tfoot", "colgroup", "col", "th"}
+	tfHeaders  = []string{"", "caption", "thead", "tfoot", "colgroup", "col", "th", "th-button"}
 	tfCellAttr = []string{"", "abbr", "headers", "scope", "loneabbr"}
 	tfObjects  = []string{"", "embed", "object", "applet", "iframe"}
 	tfCells    = []int{0, 10, 11}
@@ -37,7 +38,7 @@ var (
 )
 
 // tfDims lists the size of every dimension (index 0 of each = the neutral value).
-var tfDims = []int{2, len(tfRoles), len(tfDesc), 2, 2, len(tfRows), len(tfCols), len(tfHeaders), len(tfCellAttr), 2, len(tfCells), len(tfObjects)}
+var tfDims = []int{4, len(tfRoles), len(tfDesc), 2, 2, len(tfRows), len(tfCols), len(tfHeaders), len(tfCellAttr), 2, len(tfCells), len(tfObjects)}
 
 func tfGridSize() int {
 	n := 1
@@ -48,7 +49,7 @@ func tfGridSize() int {
 }
 
 func tfFromDigits(d []int) tableFeat {
-	f := tableFeat{Editable: d[0] == 1, Role: tfRoles[d[1]], DescRole: tfDesc[d[2]], Datatable0: d[3] == 1, Nested: d[4] == 1,
+	f := tableFeat{Editable: d[0] >= 1, EditableAt: []string{"", "div", "body", "html"}[d[0]], Role: tfRoles[d[1]], DescRole: tfDesc[d[2]], Datatable0: d[3] == 1, Nested: d[4] == 1,
 		Rows: tfRows[d[5]], Cols: tfCols[d[6]], Header: tfHeaders[d[7]], CellAttr: tfCellAttr[d[8]], Summary: d[9] == 1, Object: tfObjects[d[11]]}
 	// the cell-count dimension only exists at 3 x 4
 	if f.Rows == 3 && f.Cols == 4 {
@@ -73,7 +74,7 @@ func (f tableFeat) expect() (data bool, rule string) {
 		cells = f.Rows * f.Cols
 	}
 	rows := f.Rows
-	if f.Header == "thead" || f.Header == "tfoot" || f.Header == "th" {
+	if f.Header == "thead" || f.Header == "tfoot" || f.Header == "th" || f.Header == "th-button" {
 		rows++ // the header structure brings its own row
 	}
 	switch {
@@ -156,10 +157,15 @@ func (f tableFeat) html(g *tokCounter) string {
 	if cells == 0 {
 		cells = f.Rows * f.Cols
 	}
-	if f.Header == "th" {
+	if f.Header == "th" || f.Header == "th-button" {
 		sb.WriteString("<tr>")
 		for c := 0; c < f.Cols; c++ {
-			sb.WriteString("<th>" + g.tok() + "</th>")
+			if f.Header == "th-button" {
+				// a sortable column header: the label sits inside a button
+				sb.WriteString("<th><button type=\"button\">" + g.tok() + "</button></th>")
+			} else {
+				sb.WriteString("<th>" + g.tok() + "</th>")
+			}
 		}
 		sb.WriteString("</tr>")
 	}
@@ -231,7 +237,7 @@ func (f tableFeat) html(g *tokCounter) string {
 	}
 	sb.WriteString("</table>")
 	s := sb.String()
-	if f.Editable {
+	if f.Editable && (f.EditableAt == "div" || f.EditableAt == "") {
 		s = `<div contenteditable="true">` + s + `</div>`
 	}
 	switch f.Place {
@@ -249,7 +255,14 @@ func (f tableFeat) html(g *tokCounter) string {
 
 func (f tableFeat) doc() string {
 	g := &tokCounter{}
-	return `<html><head><title>zz</title></head><body><div><p>` + g.toks(60) + `</p><p>` + g.toks(60) + `</p>` + f.html(g) + `<p>` + g.toks(60) + `</p></div></body></html>`
+	htmlAttr, bodyAttr := "", ""
+	if f.Editable && f.EditableAt == "html" {
+		htmlAttr = ` contenteditable="TRUE"`
+	}
+	if f.Editable && f.EditableAt == "body" {
+		bodyAttr = ` contenteditable="true"`
+	}
+	return `<html` + htmlAttr + `><head><title>zz</title></head><body` + bodyAttr + `><div><p>` + g.toks(60) + `</p><p>` + g.toks(60) + `</p>` + f.html(g) + `<p>` + g.toks(60) + `</p></div></body></html>`
 }
 
 func genTableDoc(r *RNG) string {
